@@ -85,6 +85,77 @@ def _walk_types(T):
                 yield from _walk_types(e)
 
 
+_CONT_V = {"list", "tuple", "deque", "set", "frozenset", "dict", "OrderedDict", "defaultdict", "Counter", "ChainMap", "mappingproxy"}
+_SCALAR_T = {"int", "float", "bool", "str", "none"}
+
+
+def _value_matches_member(M, v):
+    tag = M[0]
+    m = {"list": "list", "seq": "list", "mseq": "list", "deque": "deque", "set": "set", "aset": "set", "frozenset": "frozenset",
+         "vtuple": "tuple", "tuple": "tuple", "utuple": "tuple", "ustar": "tuple", "dict": "dict", "mapping": "dict", "mmapping": "dict",
+         "odict": "OrderedDict", "ddict": "defaultdict", "counter": "Counter", "chainmap": "ChainMap", "mproxy": "mappingproxy"}
+    return m.get(tag) == v[0]
+
+
+def _union_misdispatch(T, v, out):
+    """joint walk of (type, value): at a union position, a CONTAINER value whose matching member is preceded by another
+    non-scalar member (the known 'first packer that does not raise' defect concerns exactly this situation)"""
+    if not (isinstance(T, list) and isinstance(v, list) and T and v):
+        return
+    tag = T[0]
+    if tag == "union":
+        if v[0] in _CONT_V:
+            idx = [i for i, M in enumerate(T[1]) if _value_matches_member(M, v)]
+            if idx and any(M[0] not in _SCALAR_T for M in T[1][: idx[0]]):
+                out.add("union-container-value-after-other-container-member")
+            if not idx:
+                out.add("union-container-value-after-other-container-member")
+        for M in T[1]:
+            if _value_matches_member(M, v) or (M[0] == "dc" and v[0] == "obj" and M[1] == v[1]):
+                _union_misdispatch(M, v, out)
+    elif tag == "opt":
+        if v != ["none"]:
+            _union_misdispatch(T[1], v, out)
+    elif tag == "dc" and v[0] == "obj":
+        for f, x in zip(T[2], v[2]):
+            _union_misdispatch(f[1], x, out)
+    elif tag in ("list", "seq", "mseq", "deque", "vtuple", "set", "aset", "frozenset") and isinstance(v[1], list):
+        for x in v[1]:
+            _union_misdispatch(T[1], x, out)
+    elif tag == "tuple" and isinstance(v[1], list):
+        for t, x in zip(T[1], v[1]):
+            _union_misdispatch(t, x, out)
+    elif tag in ("dict", "mapping", "mmapping", "odict", "ddict", "mproxy") and isinstance(v[1], list):
+        for kv in v[1]:
+            _union_misdispatch(T[2], kv[1], out)
+    elif tag in ("newtype", "fwd"):
+        _union_misdispatch(T[2], v, out)
+    elif tag == "tdict" and v[0] == "dict":
+        have = {kv[0][1]: kv[1] for kv in v[1] if kv[0][0] == "str"}
+        for f in T[2]:
+            if f[0] in have:
+                _union_misdispatch(f[1], have[f[0]], out)
+    elif tag == "ntuple" and v[0] == "nt":
+        for f, x in zip(T[2], v[2]):
+            _union_misdispatch(f[1], x, out)
+    elif tag in ("utuple", "ustar") and v[0] == "tuple":
+        xs, pre, post = v[1], T[1], T[3]
+        for t, x in zip(pre, xs):
+            _union_misdispatch(t, x, out)
+        for x in xs[len(pre): len(xs) - len(post)]:
+            _union_misdispatch(T[2], x, out)
+        for t, x in zip(post, xs[len(xs) - len(post):] if post else []):
+            _union_misdispatch(t, x, out)
+    elif tag == "chainmap" and v[0] == "ChainMap":
+        for m in v[1]:
+            for kv in m[1]:
+                _union_misdispatch(T[2], kv[1], out)
+    elif tag == "counter":
+        pass
+    elif tag in ("final", "annotated"):
+        _union_misdispatch(T[1], v, out)
+
+
 def features(rec) -> list:
     out = set()
     T = rec.get("T")
@@ -143,6 +214,11 @@ def features(rec) -> list:
                     if "serialize_by_alias" in dopts and "by_alias_flag" in fl and not ("by_alias" in kws and "by_alias_flag" in top):
                         out.add("call-dialect-option-shadowed-by-flag-default")
     inp = rec.get("input")
+    if inp is not None and rec.get("clause") in ("wire", "not-basic", "json-dumps", "roundtrip", "encode-raises"):
+        try:
+            _union_misdispatch(T, inp, out)
+        except Exception:  # noqa: BLE001
+            pass
     if inp is not None:
         need = [len(t[1]) + len(t[3]) for t in subs if t[0] in ("utuple", "ustar")]
         if need:
